@@ -247,42 +247,46 @@ func TestVerifBounded_MoveHeader(t *testing.T) {
 	dir := t.TempDir()
 	cases, bad := 0, 0
 	ctx := context.Background()
-	for _, view := range boundedViewsOver(moveAlphabet, boundedMaxRows()) {
-		for _, oldN := range moveAlphabet {
-			for _, newN := range moveAlphabet {
-				p := boundedPersister(t, dir, view)
-				before := dumpRows(t, p)
-				err := p.MoveHeader(ctx, oldN, newN, 77, 3)
-				after := dumpRows(t, p)
-				p.sqlite.DB.Close()
-				cases++
-				var want []bFullRow
-				hasOld := false
-				for _, r := range before {
-					if r.name == oldN {
-						hasOld = true
+	for _, rel := range []bool{false, true} {
+		boundedRelative = rel
+		for _, view := range boundedViewsOver(moveAlphabet, boundedMaxRows()) {
+			for _, oldN := range moveAlphabet {
+				for _, newN := range moveAlphabet {
+					p := boundedPersister(t, dir, view)
+					before := dumpRows(t, p)
+					err := p.MoveHeader(ctx, oldN, newN, 77, 3)
+					after := dumpRows(t, p)
+					p.sqlite.DB.Close()
+					cases++
+					var want []bFullRow
+					hasOld := false
+					for _, r := range before {
+						if r.name == storedName(oldN) {
+							hasOld = true
+						}
 					}
-				}
-				for _, r := range before {
-					switch {
-					case hasOld && r.name == oldN:
-						want = append(want, bFullRow{newN, r.deleted, 77, r.rec})
-					case hasOld && r.name == newN && oldN != newN:
-						// replaced
-					default:
-						want = append(want, r)
+					for _, r := range before {
+						switch {
+						case hasOld && r.name == storedName(oldN):
+							want = append(want, bFullRow{storedName(newN), r.deleted, 77, r.rec})
+						case hasOld && r.name == storedName(newN) && oldN != newN:
+							// replaced
+						default:
+							want = append(want, r)
+						}
 					}
-				}
-				sort.Slice(want, func(i, j int) bool { return want[i].name < want[j].name })
-				if err != nil || fmt.Sprint(after) != fmt.Sprint(want) {
-					if bad < 8 {
-						fmt.Printf("BOUNDED-VIOLATION sql:MoveHeader view=%v old=%q new=%q err=%v got=%v want=%v\n", view, oldN, newN, err, after, want)
+					sort.Slice(want, func(i, j int) bool { return want[i].name < want[j].name })
+					if err != nil || fmt.Sprint(after) != fmt.Sprint(want) {
+						if bad < 8 {
+							fmt.Printf("BOUNDED-VIOLATION sql:MoveHeader relative-index=%v view=%v old=%q new=%q err=%v got=%v want=%v\n", rel, view, oldN, newN, err, after, want)
+						}
+						bad++
 					}
-					bad++
 				}
 			}
 		}
 	}
+	boundedRelative = false
 	fmt.Printf("BOUNDED-OK sql:MoveHeader cases=%d failing=%d maxrows=%d alphabet=%d\n", cases, bad, boundedMaxRows(), len(moveAlphabet))
 	if bad > 0 {
 		t.Fail()
